@@ -51,6 +51,42 @@ class Fresh:
         self._ret_memo[fid] = res
         return res
 
+    def _table_column(self, loop, name: str, fn) -> Optional[List[ast.AST]]:
+        """`for a, b in table:` where table is (a local bound once to) a literal sequence of equal-length tuples:
+        the expressions in the column that `name` is bound to."""
+        tgt = loop.target
+        if not (isinstance(tgt, ast.Tuple) and all(isinstance(x, ast.Name) for x in tgt.elts)):
+            return None
+        names = [x.id for x in tgt.elts]
+        if name not in names:
+            return None
+        col = names.index(name)
+        it = loop.iter
+        if isinstance(it, ast.Name):
+            vals = [st.value for st in walk_no_nested(fn) if isinstance(st, ast.Assign) and len(st.targets) == 1
+                    and isinstance(st.targets[0], ast.Name) and st.targets[0].id == it.id]
+            if len(vals) != 1:
+                return None
+            it = vals[0]
+        if not isinstance(it, (ast.Tuple, ast.List)) or not it.elts:
+            return None
+        out = []
+        for row in it.elts:
+            if not (isinstance(row, ast.Tuple) and len(row.elts) == len(names)):
+                return None
+            out.append(row.elts[col])
+        return out
+
+    def _fresh_or_own_attr(self, x: ast.AST, fn, mi, ci, stack, depth) -> Tuple[bool, str]:
+        """Fresh, or `self.<a>` inside a constructor that binds self.<a> to fresh values only."""
+        if isinstance(x, ast.Attribute) and isinstance(x.value, ast.Name) and x.value.id == "self" and fn.name == "__init__":
+            vals = [st.value for st in walk_no_nested(fn) if isinstance(st, (ast.Assign, ast.AnnAssign)) and st.value is not None
+                    and any(unparse(t) == unparse(x) for t in (st.targets if isinstance(st, ast.Assign) else [st.target]))]
+            if vals and all(self.fresh(v, fn, mi, ci, stack, depth)[0] for v in vals):
+                return True, "attribute created by this constructor"
+            return False, f"{unparse(x)} is not created by this constructor"
+        return self.fresh(x, fn, mi, ci, stack, depth)
+
     def _returns_own_argument(self, call: ast.AST, name: str, fn, mi, ci) -> bool:
         """call is f(..., name, ...) and every return of f is the parameter bound to `name`."""
         from .prog import bind_call
@@ -141,6 +177,13 @@ class Fresh:
                 elif isinstance(b, ast.AugAssign):
                     continue
                 elif isinstance(b, (ast.For, ast.comprehension)):
+                    cands = self._table_column(b, e.id, fn)
+                    if cands is not None:
+                        for cx in cands:
+                            ok, why = self._fresh_or_own_attr(cx, fn, mi, ci, stack, depth - 1)
+                            if not ok:
+                                return False, f"{e.id} iterates over a table holding {unparse(cx)[:30]} ({why})"
+                        continue
                     return False, f"{e.id} iterates over {unparse(b.iter)[:40]}"
                 else:
                     return False, f"{e.id} bound by {type(b).__name__}"
